@@ -269,7 +269,8 @@ register("C01", lean_modules=['FsModel.PFlood', 'FsModel.Descent', 'FsModel.C01'
          sections={"elev", "update"} | GRAPH_SECTIONS, nontrivial=raised_or_rerouted, tags=tags_flow,
          rule="random grids (raster 3 connectivities/border mixes, profile, mesh) x elevation families (ties, plateaus, zero, subnormal, huge, nested cones) x masks x base-level sets x six resolver variants [+ multi router]; non-trivial = at least one node was raised by the resolver",
          trusted_base=FLOW_TB)
-register("C02", lean_modules=['FsModel.PFlood'], theorems=['Fs.pflood_parent'], gen=gen_resolved, oracles=[oracle.c02], sections={"elev"}, nontrivial=raised_or_rerouted, tags=tags_flow,
+register("C02", lean_modules=["FsModel.PFlood", "FsProofs.Properties.C02"],
+         theorems=["Fs.C02.pflood_ge_input", "Fs.C02.pflood_fixed", "Fs.C02.pflood_ge_spill", "Fs.C02.pflood_le_spill", "Fs.C02.run_erase", "Fs.C02.ubInit_erase", "Fs.C02.ubInit_inv", "Fs.pflood_parent", "Fs.pflood_complete"], gen=gen_resolved, oracles=[oracle.c02], sections={"elev"}, nontrivial=raised_or_rerouted, tags=tags_flow,
          rule="same scenario family as C01; oracle = independent Bellman minimax spill level; non-trivial = some node raised",
          trusted_base=FLOW_TB)
 register("C03", lean_modules=["FsProofs.Properties.C03"], theorems=["Fs.C03.accumulate_recurrence", "Fs.C03.sweep_recurrence", "Fs.C03.accStep_get", "Fs.C03.contrib_nonneg"],
@@ -575,8 +576,8 @@ _lvl("C01", "proof",
      "Theorems for all sizes/inputs about the model's flood, router and tilt components: after the priority flood every closed non-seed node has a strictly lower closed unmasked neighbour (pflood_parent), every node unmasked-connected to a seed is closed (pflood_complete), strictly descending receivers make 'flows to' well-founded (step_wf: no cycle, finite paths), composition flood+single router (C01_pflood_single), strict descent after the spanning-tree tilt pass (tilt_descends). The spanning-tree re-routing itself (connect/Kruskal/Boruvka/orient/carve/basic) is modelled and tied by correspondence + oracle only.",
      "Lean 4 invariant proofs (flood loop, router scan, tilt) + bit-exact differential correspondence + reachability oracle")
 _lvl("C02", "proof",
-     "Theorem-backed: parent property of the flood (every raised node sits one increment above a closed neighbour, basis of f >= spill) on the executed model. The lower-bound and n-ulp upper-bound proofs (visit_lb, pflood_upper) exist for an instrumented copy of the flood and are listed in DESIGN.md as not yet tied to the executed definitions; the two-sided spill bound, f >= z and identity at base/masked nodes are checked on every run by an independent Bellman minimax oracle on the implementation's elevations for all six resolver variants.",
-     "Lean 4 flood invariant + bit-exact correspondence + independent minimax-spill oracle")
+     "Theorems about the executed priority flood Fs.Flow.pflood (any grid size, any elevations over a linear order with strictly increasing monotone nextUp): pflood_ge_input (never below the input), pflood_fixed (bit-identical at base-level and masked nodes), pflood_ge_spill (every closed node is reached from an unmasked base level by an unmasked-neighbour path whose input elevations never exceed its filled elevation: f >= spill level), pflood_le_spill (for every such path and every bound v on the input along it, f <= v raised by n+2 floating-point increments: f <= spill + (n+2) ulps). They are obtained from the invariant proofs on the ghost-instrumented loop (Fs.UB) through an erasure theorem (run_erase, ubInit_erase: forgetting the ghost counters turns each instrumented step into the executed step). 'closed' = reached by the flood; that all unmasked-connected nodes are closed when the loop exits by itself is pflood_complete. The spanning-tree variants (Kruskal/Boruvka x basic/carve) are modelled statement by statement, compared bit for bit and checked by the independent Bellman minimax oracle (two-sided bound, agreement of all variants) - not proved.",
+     "Lean 4 loop-invariant proofs (ghost-instrumented flood + erasure to the executed definitions) + bit-exact correspondence + independent minimax-spill oracle")
 _lvl("C03", "proof",
      "Theorems about the executed definitions Fs.Flow.accStep/accumulate instantiated over an arbitrary field: accStep_get (one node of the sweep adds source*area to its own entry and value*weight to each proper receiver slot), sweep_recurrence / accumulate_recurrence (for every graph and every sweep order - no node after one of its proper receivers, which C06 provides - every entry equals source*area plus the accumulated values of its donors weighted by their partition fractions; any graph size, single or multiple receivers), contrib_nonneg. The Float instance of the same definitions is compared bit for bit with all four C++ overloads; conservation over terminal nodes is checked by the exact-rational oracle (its proof from the recurrence needs the weight-sum property of C05 and is not yet written).",
      "Lean 4 induction over the sweep (Mathlib List.sum) on the executed definitions + bit-exact correspondence + exact-rational recurrence/conservation oracle")
